@@ -358,7 +358,7 @@ func runC17() int {
 		return false && jok
 	})
 	shardByBranch = true
-	tot, code := exploreSharded(rep, "C17", scs, pb, 0, 200000, deadlineFor(8*time.Minute, 100*time.Minute), sigOf)
+	tot, code := exploreSharded(rep, "C17", scs, pb, 0, 200000, deadlineFor(8*time.Minute, 60*time.Minute), sigOf)
 	if code != 0 {
 		return code
 	}
